@@ -24,6 +24,10 @@ def gen_cfg(rng, kind, profile):
             ttl = 5 * SEC
     if profile in ("noexpiry", "admission", "bigsketch"):
         ttl = tti = "none"
+    if profile in ("basic", "nocap") and rng.random() < 0.04:
+        ttl = 31536000000 * SEC                 # the 1000-year maximum
+    if profile == "basic" and rng.random() < 0.03:
+        cap = rng.choice([2 ** 32, 2 ** 63, 2 ** 64 - 1])
     hasher = rng.choice(["id", "id", "mod:2", "const:7", "mul:11400714819323198485", "mod:3"])
     return {"kind": kind, "cap": cap, "ttl": ttl, "tti": tti, "weigher": weigher, "hasher": hasher}
 
@@ -39,7 +43,9 @@ def gen_value(rng, cfg):
     if cap == "none":
         return rng.randrange(0, 6)
     r = rng.random()
-    if r < 0.08:
+    if r < 0.01:
+        return 4294967295                       # u32::MAX
+    if r < 0.08 and cap < 2 ** 31:
         return cap + rng.randrange(1, 3)        # heavier than the whole cache
     if r < 0.18:
         return 0                                # weightless
@@ -278,3 +284,34 @@ def gen_reinsert_case(rng, kind, i):
         lines += ["S", f"G {k}", "T"]
     lines += [f"D {rng.choice([1, d // 4])}", f"G {k}", "T"]
     return (f"{kind[0]}{i}_reinsert", lines)
+
+
+def gen_window_case(rng, kind, i):
+    """Lookups (especially iteration, which runs no maintenance on the single-threaded cache) at
+    clock readings between the write-based and the access-based deadline of an entry."""
+    cfg = gen_cfg(rng, kind, "expiry")
+    cfg["cap"] = rng.choice(["none", "none", 8])
+    cfg["weigher"] = "none"
+    mode = rng.choice(["ttl", "tti", "both"])
+    d = rng.choice([3 * SEC, 10 * SEC])
+    cfg["ttl"] = d if mode in ("ttl", "both") else "none"
+    cfg["tti"] = (d if mode == "tti" else rng.choice([d, 2 * d, d // 2])) if mode in ("tti", "both") else "none"
+    lines = [cfg_line(cfg)]
+    keys = [1, 2, 3]
+    for k in keys[:2]:
+        lines.append(f"I {k} {k * 10}")
+    if kind == "sync" and rng.random() < 0.6:
+        lines.append("S")
+    a = rng.choice([d // 2, d // 3, d - 1])
+    lines.append(f"D {a}")
+    lines.append(f"G {keys[0]}")                 # refreshes last_accessed only
+    lines.append(f"I {keys[2]} 30")              # a younger entry
+    if kind == "sync" and rng.random() < 0.6:
+        lines.append("S")
+    b = rng.choice([d - a, d - a + 1, d - a - 1 if d - a > 1 else 1])
+    lines.append(f"D {b}")                       # around the write-based deadline of keys 1, 2
+    lines += ["T", f"C {keys[0]}", f"C {keys[1]}", "T", f"G {keys[0]}", "T"]
+    if kind == "sync":
+        lines += ["S", "T"]
+    lines += [f"D {rng.choice([1, a])}", "T", f"G {keys[2]}", "T"]
+    return (f"{kind[0]}{i}_window", lines)
